@@ -22,7 +22,7 @@ class Check:
         self.tier = tier
         self.seed = seed
         self.t0 = time.time()
-        self.known = [f for f in load_known().get('findings', []) if f['property'] == pid]
+        self.known = [f for f in load_known().get('findings', []) if f['property'] == pid or pid in f.get('also_in', [])]
         self.known_seen = {}          # finding id -> description of the reproduced witness
         self.violations = []          # (what, scenario path)
         self.violated_names = set()
@@ -266,8 +266,8 @@ class Check:
             json.dump(scen, f, indent=1)
         return p
 
-    def replay(self, scenarios):
-        return prepare.replay(scenarios, release=False)
+    def replay(self, scenarios, timeout=120):
+        return prepare.replay(scenarios, release=False, timeout=timeout)
 
     # ------------------------------------------------------------------ process-level parallelism
     def fork_map(self, items, fn, procs=None):
